@@ -1,6 +1,487 @@
-//! C09 — monitor not written yet.
-use crate::ctx::Ctx;
+//! C09 — commitments are the exact Pedersen map and open only to what was committed.
+//!
+//! Oracle: `refs::pedersen_ref_g1` / `pedersen_ref_g2` (explicit loop over generators), fed with
+//! generators the harness knows from the outside: the ones it passed to `from_generators`, the
+//! ones read from the wire form of generated parameters (fields `h`, `gs[i]`), or the ones read
+//! from the wire form of a public key (`g1, y1s` / `g2, y2s`) for derived parameters.
+//! Refuting events: `commit(..).to_element()` != reference; `verify_opening` != (reference ==
+//! commitment); `Com(m,r) + Com(m',r')` != `Com(m+m', r+r')`.
+
+use crate::ctx::{guard, hex, Ctx};
+use crate::props::util::repo_rel;
+use crate::refs::{self, pedersen_ref_g1, pedersen_ref_g2, q_minus_1, PkAtoms};
+use crate::tracer::{trace, Kind};
+use crate::wire::dec;
+use bls12_381::{G1Projective, G2Projective, Scalar};
+use ff::Field;
+use group::{Curve, Group};
+use rand_core::RngCore;
+use serde::Serialize;
+use serde_json::{json, Value};
+use zkchannels_crypto::{
+    pedersen::{Commitment, PedersenParameters, ToPedersenParameters},
+    pointcheval_sanders::{KeyPair, PublicKey},
+    BlindingFactor, Message, SerializeElement,
+};
+
+/// The two groups, with the byte-level views the oracle works on.
+trait Grp: Group<Scalar = Scalar> + SerializeElement + Copy + PartialEq + std::fmt::Debug + 'static {
+    const NAME: &'static str;
+    const KIND: Kind;
+    fn to_wire(&self) -> Vec<u8>;
+    /// reference Pedersen map on generators given in wire form
+    fn reference(h: &[u8], gs: &[Vec<u8>], msg: &[Scalar], r: &Scalar) -> Result<Self, String>;
+    fn key_params<const N: usize>(pk: &PublicKey<N>) -> PedersenParameters<Self, N>;
+    fn key_generators(a: &PkAtoms) -> (Vec<u8>, Vec<Vec<u8>>);
+}
+
+impl Grp for G1Projective {
+    const NAME: &'static str = "G1";
+    const KIND: Kind = Kind::G1;
+    fn to_wire(&self) -> Vec<u8> {
+        self.to_affine().to_compressed().to_vec()
+    }
+    fn reference(h: &[u8], gs: &[Vec<u8>], msg: &[Scalar], r: &Scalar) -> Result<Self, String> {
+        let h = refs::g1(h).ok_or("C09: generator h does not decompress")?;
+        let mut g = vec![];
+        for b in gs {
+            g.push(refs::g1(b).ok_or("C09: generator g_i does not decompress")?);
+        }
+        if g.len() != msg.len() {
+            return Err("C09: generator / message length mismatch".into());
+        }
+        Ok(pedersen_ref_g1(&h, &g, msg, r))
+    }
+    fn key_params<const N: usize>(pk: &PublicKey<N>) -> PedersenParameters<Self, N> {
+        <PublicKey<N> as ToPedersenParameters<G1Projective, N>>::to_pedersen_parameters(pk)
+    }
+    fn key_generators(a: &PkAtoms) -> (Vec<u8>, Vec<Vec<u8>>) {
+        (a.g1.to_compressed().to_vec(), a.y1s.iter().map(|y| y.to_compressed().to_vec()).collect())
+    }
+}
+
+impl Grp for G2Projective {
+    const NAME: &'static str = "G2";
+    const KIND: Kind = Kind::G2;
+    fn to_wire(&self) -> Vec<u8> {
+        self.to_affine().to_compressed().to_vec()
+    }
+    fn reference(h: &[u8], gs: &[Vec<u8>], msg: &[Scalar], r: &Scalar) -> Result<Self, String> {
+        let h = refs::g2(h).ok_or("C09: generator h does not decompress")?;
+        let mut g = vec![];
+        for b in gs {
+            g.push(refs::g2(b).ok_or("C09: generator g_i does not decompress")?);
+        }
+        if g.len() != msg.len() {
+            return Err("C09: generator / message length mismatch".into());
+        }
+        Ok(pedersen_ref_g2(&h, &g, msg, r))
+    }
+    fn key_params<const N: usize>(pk: &PublicKey<N>) -> PedersenParameters<Self, N> {
+        <PublicKey<N> as ToPedersenParameters<G2Projective, N>>::to_pedersen_parameters(pk)
+    }
+    fn key_generators(a: &PkAtoms) -> (Vec<u8>, Vec<Vec<u8>>) {
+        (a.g2.to_compressed().to_vec(), a.y2s.iter().map(|y| y.to_compressed().to_vec()).collect())
+    }
+}
+
+const SOURCES: [&str; 4] = ["explicit-random", "explicit-known-dlog", "generated", "public-key"];
+const SC_NAMES: [&str; 4] = ["0", "1", "q-1", "random"];
+
+fn sc_of(class: usize, rng: &mut impl RngCore) -> Scalar {
+    match class % 4 {
+        0 => Scalar::zero(),
+        1 => Scalar::one(),
+        2 => q_minus_1(),
+        _ => Scalar::random(&mut *rng),
+    }
+}
+
+/// Message number `mi`: 0..4 constant class; 4..8 cyclic layouts of {0,1,q-1,random};
+/// 8 a single random coordinate, others 0; from 9 on a random class per coordinate.
+fn message<const N: usize>(mi: usize, rng: &mut impl RngCore) -> ([Scalar; N], String) {
+    let mut vals = [Scalar::zero(); N];
+    let mut names = vec![];
+    let hot = (rng.next_u32() as usize) % N;
+    for i in 0..N {
+        let cl = match mi {
+            0..=3 => mi,
+            4..=7 => (i + mi) % 4,
+            8 => {
+                if i == hot {
+                    3
+                } else {
+                    0
+                }
+            }
+            _ => (rng.next_u32() % 4) as usize,
+        };
+        vals[i] = sc_of(cl, rng);
+        names.push(SC_NAMES[cl]);
+    }
+    (vals, names.join("."))
+}
+
+fn bf_from(s: &Scalar) -> Result<BlindingFactor, String> {
+    dec::<BlindingFactor>(&s.to_bytes())
+}
+
+struct Params<G: Grp, const N: usize> {
+    params: PedersenParameters<G, N>,
+    /// generators as the oracle knows them
+    h: Vec<u8>,
+    gs: Vec<Vec<u8>>,
+    /// discrete logarithms of (h, gs) to a common base, when the harness chose them
+    dlogs: Option<(Scalar, Vec<Scalar>)>,
+}
+
+/// Parameters number `inst` from `source`; deterministic in (group, N, source, inst).
+fn make_params<G: Grp, const N: usize>(c: &Ctx, source: &str, inst: usize) -> Result<Params<G, N>, String>
+where
+    PedersenParameters<G, N>: Serialize,
+{
+    let mut rng = c.rng(&format!("params/{}/N={}/{}/{}", G::NAME, N, source, inst));
+    match source {
+        "explicit-random" => {
+            let h = G::random(&mut rng);
+            let mut gs = [G::identity(); N];
+            for g in gs.iter_mut() {
+                *g = G::random(&mut rng);
+            }
+            // every other instance repeats a generator (still a legal explicit choice)
+            if N >= 2 && inst % 2 == 1 {
+                gs[N - 1] = gs[0];
+            }
+            Ok(Params {
+                params: PedersenParameters::from_generators(h, gs),
+                h: h.to_wire(),
+                gs: gs.iter().map(|g| g.to_wire()).collect(),
+                dlogs: None,
+            })
+        }
+        "explicit-known-dlog" => {
+            // h = a0 * B, g_i = a_i * B for a random base B and non-zero scalars the harness knows
+            let base = G::random(&mut rng);
+            let nz = |rng: &mut rand_chacha::ChaCha20Rng, small: bool| loop {
+                let s = if small { Scalar::from(1 + (rng.next_u32() % 9) as u64) } else { Scalar::random(&mut *rng) };
+                if !bool::from(s.is_zero()) {
+                    return s;
+                }
+            };
+            let small = inst % 2 == 0;
+            let a0 = nz(&mut rng, small);
+            let mut a = vec![];
+            let mut gs = [G::identity(); N];
+            for g in gs.iter_mut() {
+                let ai = nz(&mut rng, small);
+                *g = base * ai;
+                a.push(ai);
+            }
+            let h = base * a0;
+            Ok(Params {
+                params: PedersenParameters::from_generators(h, gs),
+                h: h.to_wire(),
+                gs: gs.iter().map(|g| g.to_wire()).collect(),
+                dlogs: Some((a0, a)),
+            })
+        }
+        "generated" => {
+            let params = PedersenParameters::<G, N>::new(&mut rng);
+            let t = trace(&params)?;
+            let h = t.fget("h")?;
+            let mut gs = vec![];
+            for i in 0..N {
+                gs.push(t.fget(&format!("gs/[{}]", i))?);
+            }
+            let n_points = t.atoms.iter().filter(|a| a.kind == G::KIND).count();
+            if n_points != N + 1 {
+                return Err(format!("C09: generated parameters have {} group atoms, expected {}", n_points, N + 1));
+            }
+            Ok(Params { params, h, gs, dlogs: None })
+        }
+        "public-key" => {
+            let kp = KeyPair::<N>::new(&mut rng);
+            let a = PkAtoms::from_value(kp.public_key())?;
+            if a.n() != N {
+                return Err("C09: public key atoms do not have N entries".into());
+            }
+            let (h, gs) = G::key_generators(&a);
+            Ok(Params { params: G::key_params(kp.public_key()), h, gs, dlogs: None })
+        }
+        _ => Err("C09: unknown parameter source".into()),
+    }
+}
+
+struct Cx<'a, G: Grp, const N: usize> {
+    p: &'a Params<G, N>,
+    source: &'a str,
+    /// distinct-key prefix
+    key: String,
+}
+
+impl<'a, G: Grp, const N: usize> Cx<'a, G, N> {
+    fn detail(&self, m: &[Scalar; N], r: &Scalar, extra: Value) -> Value {
+        json!({
+            "group": G::NAME, "N": N, "source": self.source,
+            "h": hex(&self.p.h), "gs": self.p.gs.iter().map(|g| hex(g)).collect::<Vec<_>>(),
+            "message": m.iter().map(|s| hex(&s.to_bytes())).collect::<Vec<_>>(),
+            "blinding_factor": hex(&r.to_bytes()), "extra": extra,
+        })
+    }
+
+    /// `commit(m, r).to_element()` compared with the reference; returns (library element, reference)
+    fn commit_check(&self, c: &mut Ctx, m: &[Scalar; N], r: &Scalar, what: &str) -> Option<(Commitment<G>, G)> {
+        let bf = c.ok(bf_from(r))?;
+        let reference = c.ok(G::reference(&self.p.h, &self.p.gs, m, r))?;
+        c.eval();
+        c.distinct(&format!("{}/{}/commit", self.key, what));
+        let com = match guard(|| Message::new(*m).commit(&self.p.params, bf)) {
+            Ok(x) => x,
+            Err(p) => {
+                c.violation(
+                    &format!("C09 commit-panicked group={} N={} source={} loc={}", G::NAME, N, self.source, repo_rel(&p.location)),
+                    self.detail(m, r, json!({"panic": p.message})),
+                );
+                return None;
+            }
+        };
+        let el = com.to_element();
+        let same = el == reference && el.to_wire() == reference.to_wire();
+        c.count(&format!("commit-equals-reference:{}", same), 1);
+        if bool::from(el.is_identity()) {
+            c.count("commitments-that-are-the-identity", 1);
+        }
+        if !same {
+            c.violation(
+                &format!("C09 commitment-differs-from-pedersen-map group={} N={} source={}", G::NAME, N, self.source),
+                self.detail(m, r, json!({"library": hex(&el.to_wire()), "reference": hex(&reference.to_wire()), "opening": what})),
+            );
+        }
+        Some((com, reference))
+    }
+
+    /// `com.verify_opening(params, r, m)` compared with (reference(m, r) == com)
+    #[allow(clippy::too_many_arguments)]
+    fn opening_check(&self, c: &mut Ctx, com: &Commitment<G>, m: &[Scalar; N], r: &Scalar, class: &str, what: &str, stated: Option<bool>) {
+        let Some(bf) = c.ok(bf_from(r)) else { return };
+        let Some(reference) = c.ok(G::reference(&self.p.h, &self.p.gs, m, r)) else { return };
+        let el = com.to_element();
+        let oracle = reference == el;
+        c.eval();
+        c.distinct(&format!("{}/{}", self.key, what));
+        let lib = match guard(|| com.verify_opening(&self.p.params, bf, &Message::new(*m))) {
+            Ok(v) => v,
+            Err(p) => {
+                c.violation(
+                    &format!("C09 verify_opening-panicked group={} N={} source={} case={} loc={}", G::NAME, N, self.source, class, repo_rel(&p.location)),
+                    self.detail(m, r, json!({"panic": p.message, "commitment": hex(&el.to_wire())})),
+                );
+                return;
+            }
+        };
+        c.count(&format!("{}:{}", class, if lib { "accepted" } else { "rejected" }), 1);
+        let extra = json!({"commitment": hex(&el.to_wire()), "reference_of_opening": hex(&reference.to_wire()),
+                           "library": lib, "oracle": oracle, "opening": what});
+        if lib != oracle {
+            c.violation(
+                &format!("C09 verify_opening-disagrees-with-recomputation group={} N={} source={} case={}", G::NAME, N, self.source, class),
+                self.detail(m, r, extra),
+            );
+        } else if let Some(s) = stated {
+            if lib != s {
+                let w = if s { "original-opening-rejected" } else { "changed-opening-accepted" };
+                c.violation(&format!("C09 {} group={} N={} source={} case={}", w, G::NAME, N, self.source, class), self.detail(m, r, extra));
+            }
+        }
+    }
+}
+
+fn opening_case<G: Grp, const N: usize>(c: &mut Ctx, name: &str, source: &str, inst: usize, mi: usize)
+where
+    PedersenParameters<G, N>: Serialize,
+{
+    let mut rng = c.rng(name);
+    let p = match make_params::<G, N>(c, source, inst) {
+        Ok(p) => p,
+        Err(e) => return c.inconclusive(&e),
+    };
+    let (m, mname) = message::<N>(mi, &mut rng);
+    let thorough = c.tier.pick(false, true);
+    for bfc in 0..4usize {
+        let r = sc_of(bfc, &mut rng);
+        let cx = Cx::<G, N> { p: &p, source, key: format!("{}/N={}/{}/{}/msg={}/bf={}", G::NAME, N, source, inst, mname, SC_NAMES[bfc]) };
+
+        // the map itself, and the original opening
+        let Some((com, _reference)) = cx.commit_check(c, &m, &r, "original") else { continue };
+        cx.opening_check(c, &com, &m, &r, "original-opening", "open/original", Some(true));
+        if bfc == 3 && mi == 5 && inst == 0 {
+            c.sample(json!({"kind": "opening", "group": G::NAME, "N": N, "source": source, "message_classes": mname,
+                            "blinding_factor_class": SC_NAMES[bfc], "commitment": hex(&com.to_element().to_wire()),
+                            "detail": cx.detail(&m, &r, json!(null))}));
+        }
+
+        // every single-coordinate perturbation of the message
+        for j in 0..N {
+            // quick tier: +1 on every coordinate under the random blinding factor and one rotating
+            // constant one, a random replacement on every coordinate under the random blinding
+            // factor; one rotating coordinate gets +1, -1 and random under every blinding factor
+            let full = thorough || bfc == 3 || bfc == mi % 3;
+            let rotating = j == (mi + bfc) % N;
+            let mut kinds = vec![];
+            if full || rotating {
+                kinds.push("+1");
+            }
+            if thorough || bfc == 3 || rotating {
+                kinds.push("random");
+            }
+            if thorough || rotating || (j == N - 1 && full) {
+                kinds.push("-1");
+            }
+            if thorough {
+                kinds.push("zeroed-or-one");
+            }
+            for kind in kinds {
+                let mut m2 = m;
+                m2[j] = match kind {
+                    "+1" => m[j] + Scalar::one(),
+                    "-1" => m[j] - Scalar::one(),
+                    "random" => Scalar::random(&mut rng),
+                    _ => {
+                        if bool::from(m[j].is_zero()) {
+                            Scalar::one()
+                        } else {
+                            Scalar::zero()
+                        }
+                    }
+                };
+                if m2[j] == m[j] {
+                    continue;
+                }
+                cx.opening_check(c, &com, &m2, &r, &format!("single-coordinate-change({})", kind), &format!("open/coord={}/{}", j, kind), Some(false));
+            }
+        }
+        // perturbed blinding factor
+        for (kind, r2) in [("+1", r + Scalar::one()), ("random", Scalar::random(&mut rng)), ("negated", -r)] {
+            if r2 == r || (kind == "negated" && !thorough && bfc != 3) {
+                continue;
+            }
+            cx.opening_check(c, &com, &m, &r2, &format!("blinding-factor-change({})", kind), &format!("open/bf/{}", kind), Some(false));
+        }
+        // a different commitment against the original opening, additivity, decoded commitments
+        // (quick tier: under the random blinding factor and one rotating constant one)
+        if thorough || bfc == 3 || bfc == mi % 3 {
+            let (m3, _) = message::<N>(9, &mut rng);
+            let r3 = Scalar::random(&mut rng);
+            if let Some((other, _)) = cx.commit_check(c, &m3, &r3, "second") {
+                if other.to_element() != com.to_element() {
+                    cx.opening_check(c, &other, &m, &r, "different-commitment(another opening)", "open/other-commitment", Some(false));
+                    // twin: that commitment opens to its own opening
+                    cx.opening_check(c, &other, &m3, &r3, "original-opening", "open/other-commitment/own", Some(true));
+                }
+                // additivity, library on both sides and against the reference
+                let mut ms = m;
+                for i in 0..N {
+                    ms[i] += m3[i];
+                }
+                let rs = r + r3;
+                if let Some((sum_com, sum_ref)) = cx.commit_check(c, &ms, &rs, "sum") {
+                    c.eval();
+                    c.distinct(&format!("{}/additivity", cx.key));
+                    let added = com.to_element() + other.to_element();
+                    let ok = added == sum_com.to_element() && added == sum_ref;
+                    c.count(&format!("additivity-holds:{}", ok), 1);
+                    if !ok {
+                        c.violation(
+                            &format!("C09 additivity-fails group={} N={} source={}", G::NAME, N, source),
+                            cx.detail(&m, &r, json!({"second_message": m3.iter().map(|s| hex(&s.to_bytes())).collect::<Vec<_>>(),
+                                "second_blinding_factor": hex(&r3.to_bytes()), "sum_of_commitments": hex(&added.to_wire()),
+                                "commitment_of_sums": hex(&sum_com.to_element().to_wire()), "reference_of_sums": hex(&sum_ref.to_wire())})),
+                        );
+                    }
+                    // the sum of the commitments opens to the sums (through the wire: Commitment has no public constructor)
+                    match dec::<Commitment<G>>(&added.to_wire()) {
+                        Ok(ac) => cx.opening_check(c, &ac, &ms, &rs, "sum-of-commitments-opens-to-sums", "open/sum", None),
+                        Err(e) => c.inconclusive(&format!("C09: sum of two commitments does not decode as a commitment: {}", e)),
+                    }
+                }
+            }
+            // a commitment decoded from a random element, and the identity commitment
+            let rnd = G::random(&mut rng);
+            for (kind, bytes) in [("random-element", rnd.to_wire()), ("identity", G::identity().to_wire())] {
+                match dec::<Commitment<G>>(&bytes) {
+                    Ok(dc) => {
+                        c.count(&format!("decoded-commitment({}):decodes", kind), 1);
+                        let stated = if dc.to_element() == com.to_element() { None } else { Some(false) };
+                        cx.opening_check(c, &dc, &m, &r, &format!("different-commitment(decoded {})", kind), &format!("open/decoded-{}", kind), stated);
+                    }
+                    // an identity commitment is a legal value; a decoder refusing it is not this property's matter
+                    Err(_) => c.count(&format!("decoded-commitment({}):refused-at-decode", kind), 1),
+                }
+            }
+        }
+        // openings that differ from the original and still recompute to the same element
+        // (possible only because the harness knows the discrete logarithms): must be accepted
+        if let Some((a0, a)) = &p.dlogs {
+            // r -> r + a_0^-1 * a_j * d  and  m_j -> m_j - d  leave h^r g_j^{m_j} unchanged
+            let j = (mi + bfc) % N;
+            let d = Scalar::from(1 + (rng.next_u32() % 1000) as u64);
+            let inv: Option<Scalar> = Option::from(a0.invert());
+            if let Some(inv) = inv {
+                let mut m2 = m;
+                m2[j] -= d;
+                let r2 = r + inv * a[j] * d;
+                cx.opening_check(c, &com, &m2, &r2, "colliding-opening(message and blinding factor)", &format!("open/collision-bf/coord={}", j), None);
+                c.count("colliding-openings-constructed", 1);
+            }
+            if N >= 2 {
+                let j2 = (j + 1) % N;
+                let inv2: Option<Scalar> = Option::from(a[j2].invert());
+                if let Some(inv2) = inv2 {
+                    let mut m2 = m;
+                    m2[j] -= d;
+                    m2[j2] += inv2 * a[j] * d;
+                    cx.opening_check(c, &com, &m2, &r, "colliding-opening(two coordinates)", &format!("open/collision-2/coord={}", j), None);
+                    c.count("colliding-openings-constructed", 1);
+                }
+            }
+        }
+    }
+}
+
+fn run_group_n<G: Grp, const N: usize>(c: &mut Ctx, insts: usize, msgs: usize)
+where
+    PedersenParameters<G, N>: Serialize,
+{
+    for source in SOURCES {
+        for inst in 0..insts {
+            for mi in 0..msgs {
+                // quick tier: each message number meets one of the two parameter instances
+                if c.tier.pick(true, false) && (mi + inst) % 2 == 1 {
+                    continue;
+                }
+                let name = format!("open/{}/N={}/{}/{}/msg={}", G::NAME, N, source, inst, mi);
+                c.case(&name, |c| opening_case::<G, N>(c, &name, source, inst, mi));
+            }
+        }
+    }
+}
+
+fn run_n<const N: usize>(c: &mut Ctx, insts: usize, msgs: usize) {
+    run_group_n::<G1Projective, N>(c, insts, msgs);
+    run_group_n::<G2Projective, N>(c, insts, msgs);
+}
 
 pub fn run(c: &mut Ctx) {
-    c.inconclusive("C09: monitor not written yet");
+    c.note(
+        "rule",
+        json!("One case per (group in {G1,G2}, N in {1,2,3,5,8,13}, parameter source, parameter instance, message number; in the quick tier each message number meets one of two instances); inside, the four blinding-factor classes {0,1,q-1,random}. Sources: from_generators with random generators (odd instances repeat one generator), from_generators with generators a_i*B of known discrete logarithms (even instances small a_i), PedersenParameters::new (generators recovered from the wire form, fields h and gs[i]), ToPedersenParameters of a fresh public key (generators read from the key's wire form). Messages: numbers 0-3 constant class from {0,1,q-1,random}, 4-7 cyclic layouts, 8 one random coordinate, 9+ random class per coordinate. Per opening: to_element vs reference; verify_opening vs (reference == commitment) on the original opening, on every coordinate changed by +1 and to a random value (quick tier: +1 on every coordinate under the random and one rotating constant blinding-factor class, the random replacement on every coordinate under the random class, one rotating coordinate gets +1, -1 and random under every class, the last coordinate also -1; thorough tier: +1, -1, random and 0/1 everywhere), on the blinding factor +1 / random / negated, on a second commitment (this and the following checks under two of the four blinding-factor classes in the quick tier), on commitments decoded from a random element and from the identity, on the sum of two commitments with the summed opening, and (known discrete logarithms only) on two different openings that recompute to the same element, which must be accepted; additivity Com(m,r)+Com(m',r') = Com(m+m',r+r') against library and reference. Distinct = (group, N, source, instance, per-coordinate message classes, blinding-factor class, check)."),
+    );
+    let insts = c.tier.pick(2usize, 4);
+    let msgs = c.tier.pick(10usize, 24);
+    run_n::<1>(c, insts, msgs);
+    run_n::<2>(c, insts, msgs);
+    run_n::<3>(c, insts, msgs);
+    run_n::<5>(c, insts, msgs);
+    run_n::<8>(c, insts, msgs);
+    run_n::<13>(c, insts, msgs);
 }
